@@ -36,7 +36,7 @@ Print Assumptions C15_lines_through_string.
 
 (* an undefined variable is an error of the evaluator, whatever follows it in the value *)
 Theorem C15_undefined_variable :
-  forall fuel sc x rest, variables x sc = None -> (match x with "@" :: "@" :: _ => False | _ => True end) ->
+  forall fuel sc x rest, variables x sc = None -> (match x with "@" :: "@" :: _ => False | _ => True end) -> is_interp x = false ->
     eval_value (S fuel) sc (VVar x :: rest) = RError $"SyntaxError" ($"Unknown variable " ++ x).
 Proof. exact unbound_is_error. Qed.
 Print Assumptions C15_undefined_variable.
